@@ -104,6 +104,7 @@ type Machine struct {
 	taintSeq    int
 	typeHandles map[string]*Opaque
 	embedsDone  map[*ssa.Package]bool
+	initSkipped map[*ssa.Package]bool
 	ufApps      map[string][]ufApp
 	curH        int
 	lastH       int
